@@ -92,6 +92,10 @@ CORPUS = [
     (["dc", "X3", {"allow_deserialization_not_by_alias": True}, [[{"name": "a", "alias": None, "default": None, "init": True, "omit": False}, "int"]]], ["map", "dict", [[["s", "None"], ["i", "5"]], [["s", "a"], ["i", "1"]]]], "mixin"),
     (["dc", "X4", {}, [[{"name": "a", "alias": None, "default": None, "init": True, "omit": False}, ["map", "mproxy", "str", "int"]]]], ["map", "dict", []], "mixin"),
 ]
+# unexpected keys that are not strings (the exception must carry exactly them and stay printable)
+for _k in (["i", "5"], None, True, ["f", "1.5"]):
+    CORPUS.append((["dc", "X5", {"forbid_extra_keys": True}, [[{"name": "a", "alias": None, "default": None, "init": True, "omit": False}, "int"]]],
+                   ["map", "dict", [[["s", "a"], ["i", "1"]], [_k, ["i", "2"]]]], "mixin"))
 # classes WITHOUT constructor parameters (no fields at all / only init=False members): the argument is
 # checked like everywhere else (finding F42)
 _NOINIT = [{"name": "n", "alias": None, "default": ["some", ["i", "1"]], "init": False, "omit": False}, "int"]
